@@ -876,13 +876,35 @@ func (s *clientSocket) _sendBuffers(volatile, forceSend bool, ackID *uint64, buf
 			}
 		}
 
-		s.stateMu.RLock()
-		sendImmediately := s.state == clientSocketConnStateConnected || s.state == clientSocketConnStateConnectPending
-		s.stateMu.RUnlock()
-		if sendImmediately || forceSend {
+		if forceSend {
 			s.manager.packet(packets...)
+			return
+		}
+
+		// Events are only sent while the socket is connected, as in the reference implementation.
+		// While the CONNECT reply is pending the server doesn't know the socket yet: a packet
+		// sent now would arrive at a namespace that has no socket, and the server would close the connection.
+		//
+		// The state is read with `sendBufferMu` held: `emitBuffered` flushes the buffer after the
+		// state is set to connected and takes the same mutex, so a packet that is put into the
+		// buffer here is always seen by that flush.
+		s.sendBufferMu.Lock()
+		s.stateMu.RLock()
+		connected := s.state == clientSocketConnStateConnected
+		s.stateMu.RUnlock()
+		if connected {
+			// Whatever is still in the buffer was emitted earlier. It goes first.
+			if len(s.sendBuffer) != 0 {
+				buffered := make([]*eioparser.Packet, len(s.sendBuffer), len(s.sendBuffer)+len(packets))
+				for i := range buffered {
+					buffered[i] = s.sendBuffer[i].packet
+				}
+				s.sendBuffer = nil
+				packets = append(buffered, packets...)
+			}
+			s.manager.packet(packets...)
+			s.sendBufferMu.Unlock()
 		} else if !volatile {
-			s.sendBufferMu.Lock()
 			buffers := make([]sendBufferItem, len(packets))
 			for i := range buffers {
 				buffers[i] = sendBufferItem{
@@ -893,6 +915,7 @@ func (s *clientSocket) _sendBuffers(volatile, forceSend bool, ackID *uint64, buf
 			s.sendBuffer = append(s.sendBuffer, buffers...)
 			s.sendBufferMu.Unlock()
 		} else {
+			s.sendBufferMu.Unlock()
 			s.debug.Log("Packet is discarded")
 		}
 	}
